@@ -350,14 +350,14 @@ func CountSweepHTML() []string {
 	vecs := []string{"<a onerror=x>", "<script>", "<a href=javascript:x>", "<a style=x>"}
 	for _, u := range units {
 		for _, v := range vecs {
-			for k := 0; k <= 300; k++ {
+			for _, k := range countPoints() {
 				out = append(out, strings.Repeat(u, k)+v, ">"+strings.Repeat(u, k)+v, "'>"+strings.Repeat(u, k)+v)
 			}
 		}
 	}
 	// a bare attribute after k attribute-like units (unquoted attribute context), and after a closed quote
 	for _, u := range []string{"x ", "a=b ", "a='b' "} {
-		for k := 0; k <= 300; k++ {
+		for _, k := range countPoints() {
 			out = append(out, strings.Repeat(u, k)+"onerror=x>", "' "+strings.Repeat(u, k)+"onerror=x>", "\" "+strings.Repeat(u, k)+"href=javascript:x>")
 		}
 	}
@@ -367,27 +367,57 @@ func CountSweepHTML() []string {
 // CountSweepSQL: the same for the SQL side.
 func CountSweepSQL() []string {
 	var out []string
-	units := []string{"1,", "(", " ", "a.", "/**/", "1+"}
+	units := []string{"1,", "(", " ", "a.", "/**/", "1+", "--a\n", "#a\n", "a, ", "a ", "'a' ", "1 "}
 	vecs := []string{"1 union select 1", "1 or 1=1", "1; drop table t", "1' or '1'='1"}
+	ks := countPoints()
 	for _, u := range units {
 		for _, v := range vecs {
-			for k := 0; k <= 300; k++ {
+			for _, k := range ks {
 				out = append(out, strings.Repeat(u, k)+v)
 			}
+		}
+	}
+	// an attack that only the MySQL reading sees ('--1' is a comment in ANSI mode), behind k comments that set the re-parse gate
+	for _, u := range []string{"--a\n", "#a\n", "/**/", "--a\n#a\n"} {
+		for _, k := range ks {
+			out = append(out, "foo "+strings.Repeat(u, k)+"--1 or 1=1", "foo' "+strings.Repeat(u, k)+"--1 or 1=1")
 		}
 	}
 	return out
 }
 
-// boundaryLens: lengths around the usual capacity boundaries.
-var boundaryLens = []int{62, 63, 64, 65, 66, 126, 127, 128, 129, 130, 254, 255, 256, 257, 258}
+// boundaryLens: lengths around the usual capacity boundaries, plus the neighbourhood of every integer
+// constant (and narrow integer type width) the tree under test has in addition to the pinned tree.
+func boundaryLens() []int {
+	return append([]int{62, 63, 64, 65, 66, 126, 127, 128, 129, 130, 254, 255, 256, 257, 258}, newIntPoints(70, 1<<17)...)
+}
+
+// newIntPoints: N-1, N, N+1 for every new integer constant N in (lo, hi].
+func newIntPoints(lo, hi int) []int {
+	var out []int
+	for _, n := range NewInts() {
+		if n > lo && n <= hi {
+			out = append(out, n-1, n, n+1)
+		}
+	}
+	return out
+}
+
+// countPoints: every repetition count 0..300 plus the neighbourhood of larger new constants.
+func countPoints() []int {
+	var ks []int
+	for k := 0; k <= 300; k++ {
+		ks = append(ks, k)
+	}
+	return append(ks, newIntPoints(300, 1<<16)...)
+}
 
 // LenSQL2: more length boundaries: long tokens around 64/128/256, dollar tags of every length to 70,
 // a word of length W followed by filler so that the total length takes every value in a window (a
 // scanner that works in fixed-size windows fails when the remainder equals the window).
 func LenSQL2() []string {
 	var out []string
-	for _, k := range boundaryLens {
+	for _, k := range boundaryLens() {
 		out = append(out, rep("a", k), "'"+rep("a", k)+"'", "$"+rep("a", k)+"$x$"+rep("a", k)+"$ or 1", rep("a", k)+" union select 1", "1 or "+rep("a", k)+"=1", "/*"+rep("a", k)+"*/1 or 1")
 	}
 	for k := 1; k <= 70; k++ {
@@ -412,7 +442,7 @@ func LenHTML2() []string {
 		n := rep("a", L-1)
 		out = append(out, "<"+n+"ɐ>", "<a "+n+"ɐ=x>", "<a on"+n+"ɐ=x>", "<"+n+"ı>", "<a "+n+"ſ=x>")
 	}
-	for _, k := range boundaryLens {
+	for _, k := range boundaryLens() {
 		out = append(out, "<"+rep("a", k)+" onerror=x>", "<a "+rep("b", k)+"=x onerror=y>", "<a x='"+rep("c", k)+"' onerror=y>", "<script"+rep("\x00", k)+">")
 	}
 	return out
